@@ -114,7 +114,7 @@ func refLitChar(c byte) bool {
 	return c >= '0' && c <= '9' || c >= 'a' && c <= 'z' || c >= 'A' && c <= 'Z' || c == '_' || c == ' ' || c == '=' || c == ':' || c == '/' || c == '-'
 }
 
-var refTinyRe = regexp.MustCompile(`^\^?(?:[\w =:/-]+|\((?:\?P<\w*>)?[\w =:/-]+\)\??)*\$?$`)
+var refTinyRe = regexp.MustCompile(`^\^?(?:[\w =:/-]+|\((?:\?P<\w*>)?[\w =:/-]+\)\??|\((?:\?P<\w*>)?\[(?:0-9|a-z)\]\*\))*\$?$`)
 
 // the regular expressions whose plumbing is exercised: a literal / group fragment that never matches the empty string
 func refTinyRegex(p string) bool {
